@@ -86,7 +86,7 @@ def run(ctx, boost=1):
         res.disagreements.append({"line": 0, "op": "cargo build", "impl": log[-1500:], "model": ""})
         return res
     shards = 1 if ctx.replay else ctx.jobs
-    n = (260 if ctx.quick() else 2200) * boost
+    n = (500 if ctx.quick() else 4000) * boost
     jobs = [(ctx, binp, ctx.seed * 1000 + i, n, i) for i in range(shards)]
     outs = vlib.shard_map(_shard, jobs, ctx.jobs)
     seen, kinds, traces, budget = set(), {}, 0, 0
@@ -116,6 +116,10 @@ def run(ctx, boost=1):
                                                   "case_head": ops[0][:200]})
             h = hashlib.sha1("\n".join(ops).encode()).hexdigest()
             seen.add((kind, h))
+        if not any(x.get("shard") == d for x in res.disagreements):
+            for f in ("ops.txt", "impl.txt", "model.txt"):   # keep the streams only where they differ (disk)
+                try: os.remove(os.path.join(d, f))
+                except OSError: pass
     res.traces_validated = traces - budget
     # distinct non-trivial: the harness counts non-trivial cases; distinctness is measured here over all cases
     total_cases = sum(kinds.values())
